@@ -248,14 +248,15 @@ Qed.
 Lemma hr_shred_acc rp b s i slot_ok sh :
   rp_panicked rp = false -> has_req rp (RShred b s i) = true ->
   slot_ok && (b_slice sh =? s) && (b_index sh =? i) = true ->
+  shred_tag_ok sh = true ->
   Bool.eqb (b_last sh) (is_last_slice rp b s) = true ->
   root_lookup (b, s) (rp_roots rp) = Some (b_root sh) ->
   fst (handle_response true ct slot expected rp (PShred (RShred b s i) slot_ok sh true)) =
   t_shred rp b s i (fst (fst (bs_step true ct slot (rp_store rp) (BRepair b (expected b) sh))))
           (ret_panics (snd (fst (bs_step true ct slot (rp_store rp) (BRepair b (expected b) sh))))).
 Proof.
-  intros Hp Hh H1 H2 H3. unfold handle_response, handle_response_gen. rewrite Hp. cbn [resp_req]. rewrite Hh.
-  cbn [negb]. rewrite H1, H2, H3, N.eqb_refl. cbn [negb andb].
+  intros Hp Hh H1 Ht H2 H3. unfold handle_response, handle_response_gen. rewrite Hp. cbn [resp_req]. rewrite Hh.
+  cbn [negb]. rewrite H1, Ht, H2, H3, N.eqb_refl. cbn [negb andb].
   cbn [rp_store rp_outstanding rp_roots rp_lasts rp_panicked].
   destruct (bs_step true ct slot (rp_store rp) (BRepair b (expected b) sh)) as [[sd ret] ev].
   destruct ret as [[[h par]|]| |]; reflexivity.
@@ -373,7 +374,10 @@ Lemma repair_store_step sd l sh : sd_panicked sd = false -> Inv ct hb l (aget bd
 Proof.
   intros Hp HI Hs. destruct (add_honest slot ct hb Hok l _ sh HI Hs) as [d' [E HI']].
   destruct (hb_parent_some slot ct hb Hok) as [parent [Hpar _]].
-  unfold bs_step. rewrite Hp, E. unfold expected_res. rewrite Hpar, Hexp.
+  assert (Ht : shred_tag_ok sh = true).
+  { destruct Hs as [i [j [_ [_ ->]]]]. unfold shred_tag_ok, hshred. cbn [b_index b_is_data]. apply eqb_reflx. }
+  rewrite (bs_step_tag_ok true ct slot sd (BRepair k (expected k) sh) Ht). unfold bs_step_gen. rewrite Hp. cbn [andb].
+  rewrite E. unfold expected_res. rewrite Hpar, Hexp.
   destruct (is_dup l sh); [|destruct (is_nilb l); [|destruct (block_ready hb (l ++ [sh]))]];
     rewrite ?listN_eqb_refl; cbn [negb ret_of_event];
     (eexists _, _, _; split; [reflexivity|]; cbn [sd_panicked sd_dissem sd_repaired]; rewrite aget_ainsert_same';
@@ -441,17 +445,18 @@ Proof.
       rewrite (hr_root_acc rp k s _ Hp Rh). destruct (tr_root rp s HI Rh) as [H1 [H2 _]]. auto.
     + destruct r as [| |b s i]; try discriminate.
       pose proof (Hwf _ Rh) as Hb. cbn [wf_req] in Hb. destruct Hb as [-> [Hsk [Hi [Hrk Hlast]]]].
-      apply orb_false_iff in R. destruct R as [R Rc]. apply orb_false_iff in R. destruct R as [Ra Rb].
-      apply negb_false_iff in Ra, Rb. unfold root_known in Hrk. rewrite Hrk in Rc.
+      apply orb_false_iff in R. destruct R as [R Rc]. apply orb_false_iff in R. destruct R as [R Rb].
+      apply orb_false_iff in R. destruct R as [Ra Rt].
+      apply negb_false_iff in Ra, Rb, Rt. unfold root_known in Hrk. rewrite Hrk in Rc.
       apply orb_false_iff in Rc. destruct Rc as [Rc Rd]. apply negb_false_iff in Rc, Rd. subst sig_ok.
       assert (Hsh : sh = hshred hb s i).
       { apply bshred_eqb_eq. cbn [sound_resp] in Hs.
         pose proof Ra as Ra'. apply andb_true_iff in Ra'. destruct Ra' as [Ra' A3]. apply andb_true_iff in Ra'. destruct Ra' as [_ A2].
-        rewrite N.eqb_refl, A2, A3, Rc in Hs. cbn [andb] in Hs.
+        rewrite N.eqb_refl, A2, A3, Rc, Rt in Hs. cbn [andb] in Hs.
         rewrite (is_last_known rp s Hlast) in Rb. apply eqb_prop in Rb.
         unfold hb_is_last in Hs. rewrite Rb, (N.eqb_sym (K - 1) s), eqb_reflx in Hs. exact Hs. }
       apply N.eqb_eq in Rc.
-      rewrite (hr_shred_acc rp k s i slot_ok sh Hp Rh Ra Rb) by (rewrite Rc; exact Hrk).
+      rewrite (hr_shred_acc rp k s i slot_ok sh Hp Rh Ra Rt Rb) by (rewrite Rc; exact Hrk).
       subst sh. destruct (tr_shred rp s i HI Rh) as [H1 [H2 _]]. auto.
   - unfold timeout. rewrite Hp. destruct (has_req rp r); exact Hsame.
 Qed.
@@ -468,6 +473,7 @@ Proof.
     rewrite (hr_shred_acc rp k s i true (hshred hb s i) Hp Hh).
     + apply (tr_shred rp s i HI Hh).
     + cbn [hshred b_slice b_index]. rewrite !N.eqb_refl. reflexivity.
+    + unfold shred_tag_ok, hshred. cbn [b_index b_is_data]. apply eqb_reflx.
     + rewrite (is_last_known rp s Hlast). cbn [hshred b_last]. unfold hb_is_last. rewrite (N.eqb_sym (K - 1) s). apply eqb_reflx.
     + exact Hrk.
 Qed.
@@ -652,6 +658,7 @@ Proof.
     split; [|split; [exact M3 | split; reflexivity]].
     intros x. unfold t_shred, has_req. cbn [rp_outstanding]. apply existsb_del.
   - cbn [hshred b_slice b_index]. rewrite !N.eqb_refl. reflexivity.
+  - unfold shred_tag_ok, hshred. cbn [b_index b_is_data]. apply eqb_reflx.
   - rewrite (is_last_known rp s Hlast). cbn [hshred b_last]. unfold hb_is_last. rewrite (N.eqb_sym (K - 1) s). apply eqb_reflx.
   - exact Hrk.
 Qed.
@@ -703,7 +710,10 @@ Lemma bs_repair_have_block chk ct slot sd b e s sd' ret evs key :
   have_block sd key = false -> have_block sd' key = true ->
   b = key /\ exists h p, ret = BROk (Some (h, p)).
 Proof.
-  intros H H0 H1. unfold bs_step in H. destruct (sd_panicked sd); [injection H as <- <- <-; congruence|].
+  intros H H0 H1.
+  destruct (bs_step_cases chk ct slot sd (BRepair b e s)) as [E|[_ [_ E]]]; rewrite E in H; clear E;
+    [|injection H as <- <- <-; congruence].
+  unfold bs_step_gen in H. destruct (sd_panicked sd); [injection H as <- <- <-; congruence|]. cbn [andb] in H.
   destruct (bd_add_shred chk ct slot (aget bd_empty b (sd_repaired sd)) s) as [d r] eqn:Ea.
   pose proof (add_shred_completed_spec _ _ _ _ _ _ _ Ea) as Hc.
   assert (Hold : key = b -> bd_completed (aget bd_empty b (sd_repaired sd)) = None).
@@ -749,6 +759,7 @@ Proof.
     + exfalso. destruct r; try exact (Hign _ H1). destruct ok; [|exact (Hign _ H1)]. cbn [fst send_all rp_store] in H1. congruence.
     + destruct r as [| |b sl ix]; try (exfalso; exact (Hign _ H1)).
       destruct (negb (slot_ok && (b_slice s =? sl) && (b_index s =? ix))); [exfalso; exact (Hign _ H1)|].
+      destruct (negb (shred_tag_ok s)); [exfalso; exact (Hign _ H1)|].
       destruct (true && negb (Bool.eqb (b_last s) (is_last_slice rp b sl))); [exfalso; exact (Hign _ H1)|].
       destruct (root_lookup (b, sl) (rp_roots rp)) as [root|]; [|exfalso; cbn [fst rp_store] in H1; congruence].
       destruct (negb (b_root s =? root)); [exfalso; exact (Hign _ H1)|]. destruct (negb sig_ok); [exfalso; exact (Hign _ H1)|].
